@@ -167,38 +167,48 @@ func checkC11(p *Prog, r *Result, tier string) {
 			r.Report("C11.R1", FuncName(ctl), construct, Violated, "the schema control has no such loop: one inclusion of the index/directory comparison is missing", p.Pos(ctl.Pos()), nil, true)
 			return
 		}
-		seenRet := false
-		l := &effListener{p: p, r: r, root: ctl, val: Valuation{}}
-		l.onEvent = func(l *effListener, x *Explorer, st *State, ev *Event) {
-			if st.trackIter && ev.Kind == EvAccess && wantAccess(ev) {
-				st.User |= 1
+		// the loop must be able to report under every configuration (cache / async valuation): a report that a
+		// configuration predicate switches off is a divergence nobody hears about in that configuration
+		seenRet := true
+		blindVal := ""
+		for _, val := range append([]Valuation{{}}, configVals...) {
+			seenHere := false
+			l := &effListener{p: p, r: r, root: ctl, val: val}
+			l.onEvent = func(l *effListener, x *Explorer, st *State, ev *Event) {
+				if st.trackIter && ev.Kind == EvAccess && wantAccess(ev) {
+					st.User |= 1
+				}
 			}
-		}
-		l.onReturn = func(l *effListener, x *Explorer, st *State, ret *ssa.Return, res []Fact) {
-			if st.trackIter && st.iter.Has(EErrCorrupted) && st.User&1 != 0 {
-				seenRet = true
+			l.onReturn = func(l *effListener, x *Explorer, st *State, ret *ssa.Return, res []Fact) {
+				if st.trackIter && st.iter.Has(EErrCorrupted) && st.User&1 != 0 {
+					seenHere = true
+				}
+				// the control cannot succeed without having reached this loop (in loop mode a path that reaches the
+				// header ends at the loop's exit: a return seen with tracking off never got there)
+				if e, has := errResult(ctl, res); !st.trackIter && len(st.frames) == 1 && has && e != triNo {
+					l.bad("C11.R6", FuncName(ctl), "success only after the "+construct, "the schema control can return success on a path that skips this inclusion loop: the divergence it looks for goes unreported (on load, and by Control)", l.p.Pos(ret.Pos()), x, st, ret)
+				} else if st.trackIter || (has && e == triNo) {
+					l.ok("C11.R6", FuncName(ctl), "success only after the "+construct, l.p.Pos(ret.Pos()))
+				}
 			}
-			// the control cannot succeed without having reached this loop (in loop mode a path that reaches the
-			// header ends at the loop's exit: a return seen with tracking off never got there)
-			if e, has := errResult(ctl, res); !st.trackIter && len(st.frames) == 1 && has && e != triNo {
-				l.bad("C11.R6", FuncName(ctl), "success only after the "+construct, "the schema control can return success on a path that skips this inclusion loop: the divergence it looks for goes unreported (on load, and by Control)", l.p.Pos(ret.Pos()), x, st, ret)
-			} else if st.trackIter || (has && e == triNo) {
-				l.ok("C11.R6", FuncName(ctl), "success only after the "+construct, l.p.Pos(ret.Pos()))
+			l.onEnd = func(l *effListener, x *Explorer, st *State, reason string) {
+				l.ok("C11.R6", FuncName(ctl), "success only after the "+construct, "")
 			}
-		}
-		l.onEnd = func(l *effListener, x *Explorer, st *State, reason string) {
-			l.ok("C11.R6", FuncName(ctl), "success only after the "+construct, "")
-		}
-		x := NewExplorer(p, c, ctl, Valuation{}, l)
-		x.LoopFn, x.LoopHeader = lfn, lp.header
-		x.LoopBlocks = map[*ssa.BasicBlock]bool{}
-		for _, b := range lp.blocks {
-			x.LoopBlocks[b] = true
-		}
-		x.Mask = effs(EErrCorrupted)
-		x.Run()
-		for _, u := range x.Undecided {
-			r.Report("ENGINE", FuncName(ctl), u, Undecided, u, "", nil, false)
+			x := NewExplorer(p, c, ctl, val, l)
+			x.LoopFn, x.LoopHeader = lfn, lp.header
+			x.LoopBlocks = map[*ssa.BasicBlock]bool{}
+			for _, b := range lp.blocks {
+				x.LoopBlocks[b] = true
+			}
+			x.Mask = effs(EErrCorrupted)
+			x.Run()
+			for _, u := range x.Undecided {
+				r.Report("ENGINE", FuncName(ctl), u, Undecided, u, "", nil, false)
+			}
+			if !seenHere {
+				seenRet = false
+				blindVal = val.String()
+			}
 		}
 		// the miss edge must go straight to the corruption report: some branch inside the loop has a successor block
 		// that loads the corruption sentinel and returns, and that block is reached directly from a branch on a
@@ -221,9 +231,18 @@ func checkC11(p *Prog, r *Result, tier string) {
 			case *ssa.Lookup:
 				isMembership = true
 			case *ssa.Call:
+				// a boolean helper that itself looks a key up in a map (`isUUIDIndexed`), not any predicate
 				if f := cv.Call.StaticCallee(); f != nil && inSod(p, f) && f.Signature.Results().Len() == 1 {
 					if bt, ok := f.Signature.Results().At(0).Type().Underlying().(*types.Basic); ok && bt.Info()&types.IsBoolean != 0 {
-						isMembership = true
+						for _, g := range calleesWithin(p, f, 1) {
+							for _, gb := range g.Blocks {
+								for _, gi := range gb.Instrs {
+									if _, ok := gi.(*ssa.Lookup); ok {
+										isMembership = true
+									}
+								}
+							}
+						}
 					}
 				}
 			}
@@ -252,7 +271,7 @@ func checkC11(p *Prog, r *Result, tier string) {
 		} else if seenRet {
 			r.Report("C11.R1", FuncName(ctl), construct, Discharged, "", p.Pos(lp.header.Instrs[0].Pos()), nil, true)
 		} else {
-			r.Report("C11.R1", FuncName(ctl), construct, Violated, "no iteration of this loop can return ErrIndexCorrupted after the membership lookup: a divergence in this direction goes unnoticed", p.Pos(lp.header.Instrs[0].Pos()), nil, true)
+			r.Report("C11.R1", FuncName(ctl), construct, Violated, "no iteration of this loop can return ErrIndexCorrupted after the membership lookup"+map[bool]string{true: " under the configuration [" + blindVal + "]", false: ""}[blindVal != ""]+": a divergence in this direction goes unnoticed", p.Pos(lp.header.Instrs[0].Pos()), nil, true)
 		}
 	}
 	loopCanReport(dirLoop, dirFn, func(ev *Event) bool {
@@ -337,6 +356,58 @@ func checkC11(p *Prog, r *Result, tier string) {
 		}
 		if n == 0 {
 			r.Report("C11.R2", FuncName(oic), "per field: ordering test and size comparison", Violated, "index-level control does not iterate over the field indexes", p.Pos(oic.Pos()), nil, true)
+		}
+		// R7 (caller side): the schema control hands the verdict on as it is
+		for _, f := range calleesWithin(p, ctl, 1) {
+			for _, b := range f.Blocks {
+				for _, in := range b.Instrs {
+					call, ok := in.(*ssa.Call)
+					if !ok || call.Call.StaticCallee() != oic {
+						continue
+					}
+					// the failure region: blocks dominated by the non-nil successor of the test of this error
+					bad := false
+					var badAt ssa.Instruction
+					for _, ev := range errorValuesOf(call) {
+						if ev.Referrers() == nil {
+							continue
+						}
+						for _, rf := range *ev.Referrers() {
+							bo, ok := rf.(*ssa.BinOp)
+							if !ok || (bo.Op != token.NEQ && bo.Op != token.EQL) || bo.Referrers() == nil {
+								continue
+							}
+							for _, br := range *bo.Referrers() {
+								ifi, ok := br.(*ssa.If)
+								if !ok {
+									continue
+								}
+								fail := ifi.Block().Succs[0]
+								if bo.Op == token.EQL {
+									fail = ifi.Block().Succs[1]
+								}
+								for _, fb := range f.Blocks {
+									if fb != fail && !fail.Dominates(fb) {
+										continue
+									}
+									for _, fi := range fb.Instrs {
+										if ld, ok := fi.(*ssa.UnOp); ok {
+											if g, ok := ld.X.(*ssa.Global); ok && g.Object() == a.SentByName["ErrIndexCorrupted"] && sentinelIsSource(ld) {
+												bad, badAt = true, fi
+											}
+										}
+									}
+								}
+							}
+						}
+					}
+					if bad {
+						r.Report("C11.R7", FuncName(f), "the index-level verdict is handed on as it is", Violated, "the failure of the index-level control is re-issued as an error of the ErrIndexCorrupted class: the loader then publishes an index that is unordered or of the wrong size, Repair cannot fix it, later calls work on it", p.Pos(badAt.Pos()), nil, true)
+					} else {
+						r.Report("C11.R7", FuncName(f), "the index-level verdict is handed on as it is", Discharged, "", p.Pos(in.Pos()), nil, true)
+					}
+				}
+			}
 		}
 		// R7: its verdicts are not of the repairable class
 		if c.Of(oic).Has(EErrCorrupted) {
@@ -584,6 +655,8 @@ func checkC17(p *Prog, r *Result, tier string) {
 	r.Rule("C17.R1", "MUST-BEFORE: in every handle entry point except Drop and Create (and in the flusher), every file mutation (write, remove, mkdir, rename) is preceded on its path by a successful schema acquisition", 4)
 	r.Rule("C17.R2", "the structure check gates publication: the loader publishes a schema only after a successful control (or a corrupted-index verdict), and never when the struct changed", 1)
 	r.Rule("C17.R6", "Create on an existing collection changes the runtime settings only: the fields of the stored (published) schema that determine the on-disk layout (Extension, Compress, Fields) are never written; such stores only ever hit the caller's own schema value", 0)
+	r.Rule("C17.R7", "the stored descriptors are authoritative: a function that assigns the Fields of an existing schema value (not one it has just allocated) does so only under `Fields == nil`; an emptiness test would replace the stored (empty) descriptor map of a collection by the descriptors of the current struct and make the structure comparison vacuous", 1)
+	checkFieldsNilGuard(p, r, "C17.R7")
 	r.Rule("C17.R3", "Create: settings are assigned and the schema file overwritten only after a successful compatibility check; a new collection's schema file is written only when none exists and published only after a successful control", 3)
 	r.Rule("C17.R4", "compatibility is symmetric: both descriptor comparisons range over both maps, look each path up in the other map and use the same comparator both ways", 2)
 	r.Rule("C17.R5", "settings are read safely: every dereference of the async settings pointer happens where the pointer is known to be non-nil (nil test or enabled-predicate on the same path)", 3)
@@ -663,7 +736,7 @@ func checkC17(p *Prog, r *Result, tier string) {
 	// R3
 	if cr := p.FuncByName("DB.Create"); cr != nil {
 		vals := []Valuation{{FileExists: triYes}, {FileExists: triNo}}
-		exploreAll(p, c, jobsFor([]*ssa.Function{cr}, vals), effs(EOkCompat, EOkSchema, EOkStruct), r, func(j exploreJob) Listener {
+		exploreAll(p, c, jobsFor([]*ssa.Function{cr}, vals), effs(EOkCompat, EOkSchema, EOkStruct, ECallFlushPend), r, func(j exploreJob) Listener {
 			return &effListener{p: p, r: r, root: j.root, val: j.val, onEvent: func(l *effListener, x *Explorer, st *State, ev *Event) {
 				if ev.Kind == EvAccess && ev.Write && ev.Struct == a.Schema && (ev.Field == a.SchCompress || ev.Field == a.SchExtension || ev.Field == a.SchFields) {
 					if _, isStore := ev.Instr.(*ssa.Store); isStore {
@@ -684,6 +757,11 @@ func checkC17(p *Prog, r *Result, tier string) {
 				case ECfgW:
 					if ev.Tags&(TFresh|TDecoded) != 0 {
 						return // the caller's own schema value
+					}
+					if st.must.Has(ECallFlushPend) {
+						l.ok("C17.R3", fn, "pending writes flushed before the settings change", where)
+					} else {
+						l.bad("C17.R3", fn, "pending writes flushed before the settings change", "Create changes the cache / async settings of the stored schema on a path where the pending asynchronous writes were not flushed first: when the new settings switch asynchronous writes off nobody writes them any more", where, x, st, ev.Instr)
 					}
 					if st.must.Has(EOkCompat) {
 						l.ok("C17.R3", fn, "settings assigned after compatibility check", where)
@@ -709,7 +787,7 @@ func checkC17(p *Prog, r *Result, tier string) {
 					}
 				}
 			}}
-		}, func(x *Explorer) { x.AssumeTblStable = false })
+		}, func(x *Explorer) { x.AssumeTblStable = false; x.AssumeStorePresent = true })
 	}
 
 	// R4
@@ -860,6 +938,108 @@ func directionSummary(p *Prog, f *ssa.Function, depth int, seen map[*ssa.Functio
 					cmp = &cmpID{"none"}
 				}
 				out[[2]int{i, j}] = cmp
+			}
+		}
+	}
+	return out
+}
+
+// checkFieldsNilGuard: stores to Schema.Fields outside constructors and decoders sit on the true edge of Fields == nil.
+func checkFieldsNilGuard(p *Prog, r *Result, rule string) {
+	a := p.A
+	n := 0
+	for _, fn := range p.Funcs {
+		if !inSod(p, fn) || fn.Name() == "UnmarshalJSON" {
+			continue
+		}
+		for _, b := range fn.Blocks {
+			for _, in := range b.Instrs {
+				st, ok := in.(*ssa.Store)
+				if !ok {
+					continue
+				}
+				fa, ok := st.Addr.(*ssa.FieldAddr)
+				if !ok {
+					continue
+				}
+				if nn, f, _ := fieldOf(fa); nn != a.Schema || f != a.SchFields {
+					continue
+				}
+				if _, fresh := fa.X.(*ssa.Alloc); fresh {
+					continue // a schema value under construction in this function
+				}
+				n++
+				guarded := false
+				for d := b.Idom(); d != nil; d = d.Idom() {
+					ifi, ok := d.Instrs[len(d.Instrs)-1].(*ssa.If)
+					if !ok {
+						continue
+					}
+					bo, ok := ifi.Cond.(*ssa.BinOp)
+					if !ok || bo.Op != token.EQL || !(d.Succs[0] == b || d.Succs[0].Dominates(b)) || len(d.Succs[0].Preds) != 1 {
+						continue
+					}
+					for i, side := range []ssa.Value{bo.X, bo.Y} {
+						other := []ssa.Value{bo.Y, bo.X}[i]
+						if c, ok := other.(*ssa.Const); ok && c.IsNil() {
+							if _, f, _ := loadedField(side); f == a.SchFields {
+								guarded = true
+							}
+						}
+					}
+				}
+				if guarded {
+					r.Report(rule, FuncName(fn), "Fields assigned under Fields == nil", Discharged, "", p.Pos(in.Pos()), nil, true)
+				} else {
+					r.Report(rule, FuncName(fn), "Fields assigned under Fields == nil", Violated, "the descriptors of an existing schema value are (re)assigned without a preceding `Fields == nil` test: for a schema read from disk with a non-nil (possibly empty) descriptor map the stored shape is replaced by the current struct's and the structure check compares the struct with itself", p.Pos(in.Pos()), nil, true)
+				}
+			}
+		}
+	}
+	if n == 0 {
+		r.Report(rule, "-", "no assignment of Fields to an existing schema", Discharged, "", "", nil, true)
+	}
+}
+
+// errorValuesOf: the error result of a call (single result or extract), and when it is kept in a cell the loads of that
+// cell following the store in the same block.
+func errorValuesOf(call *ssa.Call) []ssa.Value {
+	var out []ssa.Value
+	var errv ssa.Value
+	if call.Call.Signature().Results().Len() == 1 && isErrorType(call.Type()) {
+		errv = call
+	} else if call.Referrers() != nil {
+		for _, rf := range *call.Referrers() {
+			if ex, ok := rf.(*ssa.Extract); ok && isErrorType(ex.Type()) {
+				errv = ex
+			}
+		}
+	}
+	if errv == nil {
+		return out
+	}
+	out = append(out, errv)
+	if errv.Referrers() != nil {
+		for _, rf := range *errv.Referrers() {
+			st, ok := rf.(*ssa.Store)
+			if !ok || st.Val != errv {
+				continue
+			}
+			after := false
+			for _, bi := range st.Block().Instrs {
+				if bi == ssa.Instruction(st) {
+					after = true
+					continue
+				}
+				if !after {
+					continue
+				}
+				if s2, ok := bi.(*ssa.Store); ok && s2.Addr == st.Addr {
+					break
+				}
+				if ld, ok := bi.(*ssa.UnOp); ok && ld.Op == token.MUL && ld.X == st.Addr {
+					out = append(out, ld)
+				}
 			}
 		}
 	}
